@@ -546,7 +546,11 @@ def pytest_sessionfinish(session, exitstatus):
             # the externals are only removed if trim was approved
             trim_approved = "trim" in state().flags or "trim" in approved_categories
 
-            if unused_externals and trim_approved:
+            # An interrupted session (collection errors, pytest.exit(), Ctrl-C) has not
+            # executed every test: the externals of these tests are still in use.
+            interrupted = exitstatus == pytest.ExitCode.INTERRUPTED
+
+            if unused_externals and trim_approved and not interrupted:
                 for name in unused_externals:
                     assert state().storage
                     state().storage.remove(name)
